@@ -111,11 +111,34 @@ def r1_exactly_one(ctx):
     ctx.check(ok, bc.qual + "#pipeline", "pipeline built from the 'pipeline' entry" if ok else "pipeline is not built from the 'pipeline' entry", where=bc, node=pl[0][0] if pl else bc.node)
 
 
-def _guards_on(ctx, f: FuncInfo, var: str):
-    """(constraints, unparsed guard tests, guard If nodes) of raising ifs in f that test `var`."""
+def _guards_on(ctx, f: FuncInfo, var: str, _depth: int = 0):
+    """(constraints, unparsed guard tests, guard If nodes) of raising ifs in f that test `var`.
+
+    Calls of repository helpers that receive `var` as an argument are inlined (two levels)."""
     cons = []
     unparsed = []
     nodes = []
+    if _depth < 2:
+        for cs in ctx.R.call_sites(f):
+            if not isinstance(cs.node, ast.Call) or cs.indirect:
+                continue
+            for cal in cs.callees:
+                if not isinstance(cal, FuncInfo) or cal is f:
+                    continue
+                for pname in cal.params:
+                    a = cs.arg_for(cal, pname)
+                    if a is not None and dotted(a) == var:
+                        c2, u2, n2 = _guards_on(ctx, cal, pname, _depth + 1)
+                        if c2 or u2:
+                            # the call statement stands for the guards it performs
+                            st_ = enclosing_stmt(cs.node)
+                            ts_ = enclosing_tests(cs.node)
+                            extra_applies = tuple(norm(t) for t, pol in ts_ if pol)
+                            for c_ in c2:
+                                cons.append(c_)
+                                nodes.append(_CallGuard(st_, getattr(c_, "_applies", ())))
+                            unparsed += u2
+                            WRAPPED.setdefault((f.qual, var), []).extend(WRAPPED.get((cal.qual, pname), []))
     for gd in raising_ifs(f.node):
         t = gd.test
         if var not in names_in(t):
@@ -129,10 +152,29 @@ def _guards_on(ctx, f: FuncInfo, var: str):
             continue
         c, applies = r
         if isinstance(c, tuple) and c[0] == "type":
+            TYPE_GUARDS.setdefault((f.qual, var), []).append(gd)
             continue
+        # enclosing non-raising ifs that only test the kind of the value act as wrappers too
+        for t_, pol in enclosing_tests(gd):
+            if pol and norm(t_).startswith(f"isinstance({var}, "):
+                applies = applies + ("isinstance:" + norm(t_),)
+        if any(a.startswith("isinstance") for a in applies):
+            WRAPPED.setdefault((f.qual, var), []).append((gd, applies))
         cons.append(c)
         nodes.append(gd)
     return cons, unparsed, nodes
+
+
+class _CallGuard:
+    """Stands for `helper(value)` whose body holds the guard (so dominance can be checked on the call)."""
+
+    def __init__(self, stmt, applies):
+        self.test = stmt
+        self.stmt = stmt
+
+
+WRAPPED: dict = {}
+TYPE_GUARDS: dict = {}
 
 
 def _fmt(cs) -> str:
@@ -179,9 +221,22 @@ def r2_ctor_setter_parity(ctx):
                         break
                     if isinstance(a_, ast.If):
                         top = a_
+                # climb to the head of an if/elif chain
+                changed = True
+                while changed:
+                    changed = False
+                    par = getattr(top, "_parent", None)
+                    if isinstance(par, ast.If) and top in par.orelse and par is not st.node:
+                        top = par
+                        changed = True
                 return top
 
-            gn = [g.node_of(_outermost(x)) for x in s_nodes]
+            gn = [g.node_of(_outermost(x.stmt)) if isinstance(x, _CallGuard) else g.node_of(_outermost(x)) for x in s_nodes]
+            # a range check that only applies to some kinds of value needs a type guard for the rest
+            wr = WRAPPED.get((st.qual, val), [])
+            if wr:
+                has_type_guard = bool(TYPE_GUARDS.get((st.qual, val))) or any("isinstance" in norm(i.test) and "not isinstance" in norm(i.test) for i in raising_ifs(st.node))
+                ctx.check(has_type_guard, f"{cq}.{name}#all-kinds", "values of other kinds are rejected by a type guard" if has_type_guard else f"the setter's range check only applies under {sorted({a for _, ap in wr for a in ap})}: other numeric kinds (e.g. numpy scalars) are stored unchecked", where=st, node=getattr(wr[0][0], "test", st.node))
             for s_ in sts:
                 ok = all(g.must_precede([gnode], sn) for gnode in gn for sn in g.nodes_of(s_))
                 ctx.check(ok, f"{cq}.{name}#validate-first", "all guards dominate the store" if ok else f"`{norm(s_)[:60]}` can execute before a guard: a rejected assignment leaves a changed object", where=st, node=s_)
@@ -310,4 +365,11 @@ def r5_builders_not_crosswired(ctx):
         ctx.check(ok, f.qual + "#sub-builders", f"{cls} built from its own geometry/environment/characteristics builders" if ok else f"{fn} uses another detector type's builders", where=f, node=rets[0] if rets else f.node)
 
 
-RULES = [r1_exactly_one, r2_ctor_setter_parity, r3_documented_ranges, r5_builders_not_crosswired]
+def r6_settings_survive_derived_copies(ctx):
+    """A setting written in the file must still hold in the objects that actually run: Readout.replace (the dask path's way of deriving a run's readout) carries every constructor setting (same obligations as C06.R5)."""
+    from props.C06 import r5_readout_replace_complete
+
+    r5_readout_replace_complete(ctx)
+
+
+RULES = [r6_settings_survive_derived_copies, r1_exactly_one, r2_ctor_setter_parity, r3_documented_ranges, r5_builders_not_crosswired]
